@@ -382,29 +382,34 @@ theorem leavesL_append (a b : List TErr) : TErr.leavesL (a ++ b) = TErr.leavesL 
 
 mutual
 /-- every teardown of the tree runs, depth first, whatever panics -/
-theorem Fin.run_log : ∀ f : Fin, (Fin.run f).1 = Fin.ids f
-  | .leaf _ _ => rfl
-  | .sub fs => by simp [Fin.run, Fin.ids, Fin.loop_log fs]
-theorem Fin.loop_log : ∀ fs : List Fin, (Fin.loop fs).1 = Fin.idsL fs
-  | [] => rfl
-  | f :: fs => by simp [Fin.loop, Fin.idsL, Fin.run_log f, Fin.loop_log fs]
+theorem Fin.run_log : ∀ f : Fin, f.closureFree = true → (Fin.run f).1 = Fin.ids f
+  | .leaf _ _, _ => rfl
+  | .sub fs, h => by simp [Fin.run, Fin.ids, Fin.loop_log fs (by simpa [Fin.closureFree] using h)]
+  | .closure _, h => by simp [Fin.closureFree] at h
+theorem Fin.loop_log : ∀ fs : List Fin, Fin.closureFreeL fs = true → (Fin.loop fs).1 = Fin.idsL fs
+  | [], _ => rfl
+  | f :: fs, h => by
+    simp only [Fin.closureFreeL, Bool.and_eq_true] at h
+    simp [Fin.loop, Fin.idsL, Fin.run_log f h.1, Fin.loop_log fs h.2]
 end
 
 mutual
 /-- the root causes of what escapes are the values the panicking teardowns panicked with -/
-theorem Fin.run_leaves : ∀ f : Fin, ((Fin.run f).2.map TErr.leaves).getD [] = Fin.panics f
-  | .leaf _ p => by cases p <;> simp [Fin.run, Fin.panics, TErr.leaves]
-  | .sub fs => by
-    have := Fin.loop_leaves fs
+theorem Fin.run_leaves : ∀ f : Fin, f.closureFree = true → ((Fin.run f).2.map TErr.leaves).getD [] = Fin.panics f
+  | .leaf _ p, _ => by cases p <;> simp [Fin.run, Fin.panics, TErr.leaves]
+  | .sub fs, h => by
+    have := Fin.loop_leaves fs (by simpa [Fin.closureFree] using h)
     simp only [Fin.run, Fin.panics]
     cases h : (Fin.loop fs).2 with
     | nil => rw [h] at this; simpa [TErr.leavesL] using this
     | cons e es => rw [h] at this; simpa [TErr.leaves] using this
-theorem Fin.loop_leaves : ∀ fs : List Fin, TErr.leavesL (Fin.loop fs).2 = Fin.panicsL fs
-  | [] => rfl
-  | f :: fs => by
-    have h1 := Fin.run_leaves f
-    have h2 := Fin.loop_leaves fs
+  | .closure _, h => by simp [Fin.closureFree] at h
+theorem Fin.loop_leaves : ∀ fs : List Fin, Fin.closureFreeL fs = true → TErr.leavesL (Fin.loop fs).2 = Fin.panicsL fs
+  | [], _ => rfl
+  | f :: fs, h => by
+    simp only [Fin.closureFreeL, Bool.and_eq_true] at h
+    have h1 := Fin.run_leaves f h.1
+    have h2 := Fin.loop_leaves fs h.2
     simp only [Fin.loop, Fin.panicsL, leavesL_append, h2]
     cases h : (Fin.run f).2 with
     | none => rw [h] at h1; simp at h1; simp [TErr.leavesL, ← h1]
@@ -412,19 +417,52 @@ theorem Fin.loop_leaves : ∀ fs : List Fin, TErr.leavesL (Fin.loop fs).2 = Fin.
 end
 
 mutual
-/-- nothing escapes when nothing panics -/
+/-- nothing escapes when nothing panics (closures included) -/
 theorem Fin.run_none : ∀ f : Fin, Fin.panics f = [] → (Fin.run f).2 = none
   | .leaf _ p => by cases p <;> simp [Fin.run, Fin.panics]
   | .sub fs => by
     intro h
     have := Fin.loop_nil fs (by simpa [Fin.panics] using h)
     simp [Fin.run, this]
+  | .closure fs => by
+    intro h
+    simpa [Fin.run] using Fin.seq_none fs (by simpa [Fin.panics] using h)
 theorem Fin.loop_nil : ∀ fs : List Fin, Fin.panicsL fs = [] → (Fin.loop fs).2 = []
   | [] => fun _ => rfl
   | f :: fs => by
     intro h
     simp only [Fin.panicsL, List.append_eq_nil_iff] at h
     simp [Fin.loop, Fin.run_none f h.1, Fin.loop_nil fs h.2]
+theorem Fin.seq_none : ∀ fs : List Fin, Fin.panicsL fs = [] → (Fin.seq fs).2 = none
+  | [] => fun _ => rfl
+  | f :: fs => by
+    intro h
+    simp only [Fin.panicsL, List.append_eq_nil_iff] at h
+    simp [Fin.seq, Fin.run_none f h.1, Fin.seq_none fs h.2]
+end
+
+mutual
+/-- … and then every teardown runs, closures or not -/
+theorem Fin.run_log_quiet : ∀ f : Fin, Fin.panics f = [] → (Fin.run f).1 = Fin.ids f
+  | .leaf _ _ => fun _ => rfl
+  | .sub fs => by
+    intro h
+    simp [Fin.run, Fin.ids, Fin.loop_log_quiet fs (by simpa [Fin.panics] using h)]
+  | .closure fs => by
+    intro h
+    simp [Fin.run, Fin.ids, Fin.seq_log_quiet fs (by simpa [Fin.panics] using h)]
+theorem Fin.loop_log_quiet : ∀ fs : List Fin, Fin.panicsL fs = [] → (Fin.loop fs).1 = Fin.idsL fs
+  | [] => fun _ => rfl
+  | f :: fs => by
+    intro h
+    simp only [Fin.panicsL, List.append_eq_nil_iff] at h
+    simp [Fin.loop, Fin.idsL, Fin.run_log_quiet f h.1, Fin.loop_log_quiet fs h.2]
+theorem Fin.seq_log_quiet : ∀ fs : List Fin, Fin.panicsL fs = [] → (Fin.seq fs).1 = Fin.idsL fs
+  | [] => fun _ => rfl
+  | f :: fs => by
+    intro h
+    simp only [Fin.panicsL, List.append_eq_nil_iff] at h
+    simp [Fin.seq, Fin.idsL, Fin.run_none f h.1, Fin.run_log_quiet f h.1, Fin.seq_log_quiet fs h.2]
 end
 
 /-- every collected error is an unsubscription error -/
@@ -440,24 +478,27 @@ theorem Fin.loop_all_un (fs : List Fin) :
     root causes of the raised value -/
 def normalize (r : List Nat × Option TErr) : List Nat × Option (List Err) := (r.1, r.2.map TErr.leaves)
 
-/-- **C03, panicking teardowns, every tree.** `Unsubscribe` runs every teardown reachable from the
-    subscription exactly once, depth first — a panic stops nothing; it raises nothing when nothing
-    panicked; otherwise it raises, after the loop, a join of unsubscription errors whose root
-    causes are exactly the values the panicking teardowns panicked with, in the order they ran. -/
-theorem unsubscribe_tree (fs : List Fin) :
+/-- **C03, panicking teardowns, every tree of subscriptions** (no unisolated multi-action closure:
+    `closureFree`; see `closure_skips_witness` for what such a closure does).
+    `Unsubscribe` runs every teardown reachable from the subscription exactly once, depth first — a
+    panic stops nothing; it raises nothing when nothing panicked; otherwise it raises, after the
+    loop, a join of unsubscription errors whose root causes are exactly the values the panicking
+    teardowns panicked with, in the order they ran. -/
+theorem unsubscribe_tree (fs : List Fin) (hc : Fin.closureFreeL fs = true) :
     (unsubscribe fs).1 = Fin.idsL fs ∧
     ((unsubscribe fs).2 = none ↔ Fin.panicsL fs = []) ∧
     (∀ e, (unsubscribe fs).2 = some e → e.isJoinOfUn = true ∧ e.leaves = Fin.panicsL fs) := by
-  refine ⟨by simp [unsubscribe, Fin.run, Fin.loop_log], ?_, ?_⟩
+  have hc' : (Fin.sub fs).closureFree = true := by simpa [Fin.closureFree] using hc
+  refine ⟨by simp [unsubscribe, Fin.run, Fin.loop_log fs hc], ?_, ?_⟩
   · constructor
     · intro h
-      have := Fin.run_leaves (.sub fs)
+      have := Fin.run_leaves (.sub fs) hc'
       rw [show Fin.run (.sub fs) = unsubscribe fs from rfl, h] at this
       simpa [Fin.panics] using this.symm
     · intro h
       exact Fin.run_none (.sub fs) (by simpa [Fin.panics] using h)
   · intro e he
-    have hl := Fin.run_leaves (.sub fs)
+    have hl := Fin.run_leaves (.sub fs) hc'
     rw [show Fin.run (.sub fs) = unsubscribe fs from rfl, he] at hl
     refine ⟨?_, by simpa [Fin.panics] using hl⟩
     simp only [unsubscribe, Fin.run] at he
@@ -469,9 +510,9 @@ theorem unsubscribe_tree (fs : List Fin) :
       exact ⟨by simpa using hne, Fin.loop_all_un fs⟩
 
 /-- the shape of the tree does not matter for the normal form -/
-theorem unsubscribe_normal (fs : List Fin) :
+theorem unsubscribe_normal (fs : List Fin) (hc : Fin.closureFreeL fs = true) :
     normalize (unsubscribe fs) = (Fin.idsL fs, if Fin.panicsL fs = [] then none else some (Fin.panicsL fs)) := by
-  obtain ⟨h1, h2, h3⟩ := unsubscribe_tree fs
+  obtain ⟨h1, h2, h3⟩ := unsubscribe_tree fs hc
   unfold normalize
   rw [h1]
   cases h : (unsubscribe fs).2 with
@@ -480,10 +521,19 @@ theorem unsubscribe_normal (fs : List Fin) :
     have hne : Fin.panicsL fs ≠ [] := fun hh => by rw [h2.2 hh] at h; cases h
     simp [hne, (h3 e h).2]
 
+/-- without a panic every teardown runs exactly once and nothing is raised — closures included -/
+theorem unsubscribe_quiet (fs : List Fin) (h : Fin.panicsL fs = []) :
+    unsubscribe fs = (Fin.idsL fs, none) := by
+  have h1 := Fin.run_log_quiet (.sub fs) (by simpa [Fin.panics] using h)
+  have h2 := Fin.run_none (.sub fs) (by simpa [Fin.panics] using h)
+  show Fin.run (.sub fs) = _
+  rw [Prod.ext_iff]; exact ⟨by simpa [Fin.ids] using h1, h2⟩
+
 mutual
 theorem Fin.assign_ids (pan : Nat → Option Err) : ∀ f : Fin, Fin.ids (Fin.assign pan f) = Fin.ids f
   | .leaf _ _ => rfl
   | .sub fs => by simp [Fin.assign, Fin.ids, Fin.assignL_ids pan fs]
+  | .closure fs => by simp [Fin.assign, Fin.ids, Fin.assignL_ids pan fs]
 theorem Fin.assignL_ids (pan : Nat → Option Err) : ∀ fs : List Fin, Fin.idsL (Fin.assignL pan fs) = Fin.idsL fs
   | [] => rfl
   | f :: fs => by simp [Fin.assignL, Fin.idsL, Fin.assign_ids pan f, Fin.assignL_ids pan fs]
@@ -493,16 +543,35 @@ mutual
 theorem Fin.assign_panics (pan : Nat → Option Err) : ∀ f : Fin, Fin.panics (Fin.assign pan f) = (Fin.ids f).filterMap pan
   | .leaf id _ => by cases h : pan id <;> simp [Fin.assign, Fin.panics, Fin.ids, h]
   | .sub fs => by simp [Fin.assign, Fin.panics, Fin.ids, Fin.assignL_panics pan fs]
+  | .closure fs => by simp [Fin.assign, Fin.panics, Fin.ids, Fin.assignL_panics pan fs]
 theorem Fin.assignL_panics (pan : Nat → Option Err) : ∀ fs : List Fin, Fin.panicsL (Fin.assignL pan fs) = (Fin.idsL fs).filterMap pan
   | [] => rfl
   | f :: fs => by simp [Fin.assignL, Fin.panicsL, Fin.idsL, Fin.assign_panics pan f, Fin.assignL_panics pan fs, List.filterMap_append]
 end
 
+mutual
+theorem Fin.assign_closureFree (pan : Nat → Option Err) : ∀ f : Fin, (Fin.assign pan f).closureFree = f.closureFree
+  | .leaf _ _ => rfl
+  | .sub fs => by simp [Fin.assign, Fin.closureFree, Fin.assignL_closureFree pan fs]
+  | .closure _ => rfl
+theorem Fin.assignL_closureFree (pan : Nat → Option Err) : ∀ fs : List Fin, Fin.closureFreeL (Fin.assignL pan fs) = Fin.closureFreeL fs
+  | [] => rfl
+  | f :: fs => by simp [Fin.assignL, Fin.closureFreeL, Fin.assign_closureFree pan f, Fin.assignL_closureFree pan fs]
+end
+
 /-- **… for every subset of panicking teardowns** (`pan` chooses who panics and with what) -/
-theorem unsubscribe_assign (fs : List Fin) (pan : Nat → Option Err) :
+theorem unsubscribe_assign (fs : List Fin) (hc : Fin.closureFreeL fs = true) (pan : Nat → Option Err) :
     normalize (unsubscribe (Fin.assignL pan fs)) =
       (Fin.idsL fs, if (Fin.idsL fs).filterMap pan = [] then none else some ((Fin.idsL fs).filterMap pan)) := by
-  rw [unsubscribe_normal, Fin.assignL_ids, Fin.assignL_panics]
+  rw [unsubscribe_normal _ (by rw [Fin.assignL_closureFree]; exact hc), Fin.assignL_ids, Fin.assignL_panics]
+
+/-- **Witness (pinned tree: `detachOn` operator_utility.go:647-650, `ThrowOnContextCancel`
+    operator_context.go:295-298).** A teardown written as `func() { sub.Unsubscribe(); release() }`
+    skips `release` (here: 90) when a teardown below `sub` (here: 1) panics. -/
+theorem closure_skips_witness :
+    (unsubscribe [.closure [.sub [.sub [.leaf 1 (some (.user 5))]], .leaf 90 none]]).1 = [1] ∧
+    (unsubscribe [.sub [.sub [.sub [.leaf 1 (some (.user 5))]], .leaf 90 none]]).1 = [1, 90] := by
+  constructor <;> rfl
 
 /-- the single loop of subscription.go:133-149 over user teardowns: every one runs, in order; the
     panics are wrapped one by one, joined, and raised after the loop -/
